@@ -226,14 +226,15 @@ def apply_op(v, m, op, a, b, c, step):
                     for r in cell:
                         r[j] += 1
     elif op == 6:                                    # add a field
-        name = "new%d" % step
-        v.add_fields(name if _mod(a, 2) else [name])
-        m.fields.append(name)
-        m.units.append("none")
+        k = 1 + _mod(b, 3)                           # 1..3 new fields: fewer, as many as, or more than there are already
+        names = ["new%d_%d" % (step, i) for i in range(k)]
+        v.add_fields(names[0] if (k == 1 and _mod(a, 2)) else names)
+        m.fields += names
+        m.units += ["none"] * k
         for cell in m.cells.values():
             if cell is not None:
                 for r in cell:
-                    r.append(0.0)
+                    r.extend([0.0] * k)
     elif op == 7:                                    # remove a field
         if nf < 2:
             return True
